@@ -48,7 +48,7 @@ func (u *Unit) callVals(fr *Frame, st *State, c *ssa.CallCommon, fn Val, args []
 			u.escape(st, fn)
 		}
 	}
-	u.atCallChecks(fr, st, c, fn, pos)
+	u.atCallChecks(fr, st, c, fn, args, pos)
 	if c.IsInvoke() {
 		key := ifaceMethodKey(c)
 		recv := fn
@@ -82,6 +82,11 @@ func (u *Unit) callVals(fr *Frame, st *State, c *ssa.CallCommon, fn Val, args []
 				return resultsToVal(sig, u.applyClosureContract(fr, st, ct, cl, args, bind, pos, key))
 			}
 			return u.inline(fr, st, cl, args, bind, pos)
+		}
+		// a local func variable assigned one of several known functions (operator tables:
+		// `switch op { case ">": fn = sql.Gt ... }; fn(a, b)`): one case per candidate
+		if v, ok := u.dispatchFuncVar(fr, st, c, f, args, pos); ok {
+			return v
 		}
 		// a named func type with a contract (e.g. context.CancelFunc)
 		if ct := u.prog.specs.Contracts["functype:"+namedKey(c.Value.Type())]; ct != nil {
@@ -291,7 +296,18 @@ func (u *Unit) applyContract(fr *Frame, st *State, ct *Contract, sig *types.Sign
 	oldEnv := &Env{u: u, st: old, old: old, vars: vars, pkgPath: ct.PkgPath, fvOverride: u.fvCallOrEmpty()}
 	if ct.ModifiesAll || !ct.HasModifies {
 		u.checkCallFrame(st, nil, true, pos, key)
+		// ghost variables the contract assigns keep their value across the havoc: the
+		// assignment's right-hand side reads the value before the call
+		saved := map[string]*Term{}
+		for _, gs := range ct.GhostSets {
+			if t, ok := st.heap["G!"+gs.Var]; ok {
+				saved["G!"+gs.Var] = t
+			}
+		}
 		u.havocAll(st, "call to "+key+" (contract modifies everything)")
+		for k, t := range saved {
+			st.heap[k] = t
+		}
 	} else {
 		var items, havoc []frameItem
 		for _, m := range ct.Modifies {
@@ -912,8 +928,9 @@ func (u *Unit) sprintfModel(st *State, args []Val) (Val, bool) {
 		return nil, false
 	}
 	type piece struct {
-		lit string
-		arg int
+		lit  string
+		arg  int
+		verb byte
 	}
 	var pieces []piece
 	lit := ""
@@ -930,12 +947,12 @@ func (u *Unit) sprintfModel(st *State, args []Val) (Val, bool) {
 		switch format[i] {
 		case '%':
 			lit += "%"
-		case 's':
+		case 's', 'd', 'f':
 			if lit != "" {
 				pieces = append(pieces, piece{lit: lit, arg: -1})
 				lit = ""
 			}
-			pieces = append(pieces, piece{arg: nargs})
+			pieces = append(pieces, piece{arg: nargs, verb: format[i]})
 			nargs++
 		default:
 			return nil, false
@@ -949,18 +966,53 @@ func (u *Unit) sprintfModel(st *State, args []Val) (Val, bool) {
 	}
 	u.ifacePrelude()
 	strT := types.Typ[types.String]
-	tag := u.typeTag(strT)
-	unbox := u.ctx.Func("unbox!"+typeKey(strT), []Sort{SIface}, SStr)
+	strTag := u.typeTag(strT)
+	unboxStr := u.ctx.Func("unbox!"+typeKey(strT), []Sort{SIface}, SStr)
+	// %d of an integer and %f of a float64 are rendered by uninterpreted functions
+	// of the (mathematical) value: fmtd / fmtf. Integer operands of every width map
+	// to fmtd of their value; the operand's dynamic type is one of the integer tags.
+	fmtd := u.ctx.Func("fmtd", []Sort{SInt}, SStr)
+	fmtf := u.ctx.Func("fmtf", []Sort{SReal}, SStr)
 	var cat, catLen *Term
-	allStr := []*Term{Eq(slen(sl), IntLit(int64(nargs)))}
+	conds := []*Term{Eq(slen(sl), IntLit(int64(nargs)))}
 	for _, pc := range pieces {
 		var t *Term
 		if pc.arg < 0 {
 			t = u.ctx.StrLit(pc.lit)
 		} else {
 			b := u.loadLoc(st, elemMapName(SIface), SIface, mkptr(sarr(sl), Eidx(soff(sl), IntLit(int64(pc.arg)))))
-			allStr = append(allStr, Eq(App(SInt, "itag", b), tag))
-			t = App(SStr, unbox, b)
+			switch pc.verb {
+			case 's':
+				conds = append(conds, Eq(App(SInt, "itag", b), strTag))
+				t = App(SStr, unboxStr, b)
+			case 'd':
+				var alts []*Term
+				var val *Term
+				for _, bt := range []types.Type{types.Typ[types.Int], types.Typ[types.Int64], types.Typ[types.Int32], types.Typ[types.Uint64], types.Typ[types.Uint32], types.Typ[types.Uint16], types.Typ[types.Uint8], types.Typ[types.Int16], types.Typ[types.Int8], types.Typ[types.Uint]} {
+					srt, _ := u.sortOf(bt)
+					if srt != SInt {
+						continue
+					}
+					ub := u.ctx.Func("unbox!"+typeKey(bt), []Sort{SIface}, SInt)
+					is := Eq(App(SInt, "itag", b), u.typeTag(bt))
+					alts = append(alts, is)
+					if val == nil {
+						val = App(SInt, ub, b)
+					} else {
+						val = Ite(is, App(SInt, ub, b), val)
+					}
+				}
+				if val == nil {
+					return nil, false
+				}
+				conds = append(conds, Or(alts...))
+				t = App(SStr, fmtd, val)
+			case 'f':
+				ft64 := types.Typ[types.Float64]
+				ub := u.ctx.Func("unbox!"+typeKey(ft64), []Sort{SIface}, SReal)
+				conds = append(conds, Eq(App(SInt, "itag", b), u.typeTag(ft64)))
+				t = App(SStr, fmtf, App(SReal, ub, b))
+			}
 		}
 		if cat == nil {
 			cat, catLen = t, App(SInt, "strlen", t)
@@ -971,7 +1023,7 @@ func (u *Unit) sprintfModel(st *State, args []Val) (Val, bool) {
 	}
 	r := u.ctx.FreshConst("sprintf", SStr)
 	u.assume(st, Ge(App(SInt, "strlen", r), IntLit(0)))
-	u.assume(st, Implies(And(allStr...), And(Eq(r, cat), Eq(App(SInt, "strlen", r), catLen))))
+	u.assume(st, Implies(And(conds...), And(Eq(r, cat), Eq(App(SInt, "strlen", r), catLen))))
 	return r, true
 }
 
@@ -1050,7 +1102,7 @@ func (u *Unit) byteView(fr *Frame, st *State, c *ssa.CallCommon, n *Term) (Val, 
 }
 
 // atCallChecks: the "at <callee>" assertions of the function being executed.
-func (u *Unit) atCallChecks(fr *Frame, st *State, c *ssa.CallCommon, fn Val, pos token.Pos) {
+func (u *Unit) atCallChecks(fr *Frame, st *State, c *ssa.CallCommon, fn Val, args []Val, pos token.Pos) {
 	if fr.contract == nil || len(fr.contract.AtCalls) == 0 {
 		return
 	}
@@ -1081,6 +1133,23 @@ func (u *Unit) atCallChecks(fr *Frame, st *State, c *ssa.CallCommon, fn Val, pos
 		u.counters["at@"+at.Callee+"#"+label]++
 		name := fmt.Sprintf("at@%s#%s/site%d", at.Callee, label, u.counters["at@"+at.Callee+"#"+label])
 		env := u.envFor(fr, st, u.entry, nil)
+		// the call's arguments by position: arg0, arg1, ... (receiver of a method call: recvarg)
+		if env.bound == nil {
+			env.bound = map[string]envVar{}
+		}
+		explicit := args
+		if !c.IsInvoke() && c.Signature().Recv() != nil && len(args) > 0 {
+			env.bound["recvarg"] = envVar{args[0], c.Signature().Recv().Type()}
+			explicit = args[1:]
+		}
+		ps := c.Signature().Params()
+		for k, a := range explicit {
+			var t types.Type
+			if k < ps.Len() {
+				t = ps.At(k).Type()
+			}
+			env.bound[fmt.Sprintf("arg%d", k)] = envVar{a, t}
+		}
 		u.addOblNamed(st, "at", name, "at the call of "+shortName(key)+": "+at.Clause.Src, pos, u.evalBoolF(env, st, at.Clause.Expr))
 	}
 }
@@ -1105,4 +1174,86 @@ func (u *Unit) aliasRenamedParams(vars map[string]envVar, key string) {
 			vars[old] = v
 		}
 	}
+}
+
+// dispatchFuncVar: a call through a local func variable whose every assignment
+// stores a named function or a capture-free closure. The call is executed once
+// per candidate on a copy of the state, guarded by "the variable holds that
+// function", and the outcomes are merged. A nil assignment (no case taken) is
+// not a candidate: calling nil panics, which is not modelled here.
+func (u *Unit) dispatchFuncVar(fr *Frame, st *State, c *ssa.CallCommon, fnT *Term, args []Val, pos token.Pos) (Val, bool) {
+	ld, ok := c.Value.(*ssa.UnOp)
+	if !ok || ld.Op != token.MUL || fnT.Sort != SFn {
+		return nil, false
+	}
+	cell, ok := ld.X.(*ssa.Alloc)
+	if !ok || cell.Referrers() == nil {
+		return nil, false
+	}
+	var cands []*ssa.Function
+	seen := map[*ssa.Function]bool{}
+	for _, r := range *cell.Referrers() {
+		s, isStore := r.(*ssa.Store)
+		if !isStore {
+			continue
+		}
+		if s.Addr != cell {
+			return nil, false
+		}
+		switch v := s.Val.(type) {
+		case *ssa.Function:
+			if !seen[v] {
+				seen[v] = true
+				cands = append(cands, v)
+			}
+		case *ssa.MakeClosure:
+			if len(v.Bindings) != 0 {
+				return nil, false
+			}
+			f := v.Fn.(*ssa.Function)
+			if !seen[f] {
+				seen[f] = true
+				cands = append(cands, f)
+			}
+		case *ssa.Const:
+			if !v.IsNil() {
+				return nil, false
+			}
+		default:
+			return nil, false
+		}
+	}
+	if len(cands) < 2 || len(cands) > 12 {
+		return nil, false
+	}
+	fs := u.ctx.Func("fnstatic", []Sort{SFn}, SInt)
+	var ins []incoming
+	var conds []*Term
+	var vals []Val
+	for _, f := range cands {
+		// make sure the candidate's value constant (and its identity axiom) exists
+		if f.Parent() != nil {
+			u.reifyFn(&ClosureVal{Fn: f})
+		} else {
+			u.reifyFn(&FnVal{Fn: f})
+		}
+		guard := Eq(App(SInt, fs, fnT), IntLit(int64(u.prog.fnID(f))))
+		sc := st.clone()
+		var r Val
+		if f.Parent() != nil {
+			r = u.inline(fr, sc, f, args, nil, pos)
+		} else {
+			r = u.callStatic(fr, sc, f, args, pos)
+		}
+		ins = append(ins, incoming{st: sc, cond: guard})
+		conds = append(conds, guard)
+		vals = append(vals, r)
+	}
+	u.note("call through a func variable dispatched over its assigned functions (a nil value is not modelled)")
+	merged := u.mergeStates(ins)
+	*st = *merged
+	if vals[0] == nil {
+		return nil, true
+	}
+	return u.mergeVals(conds, vals), true
 }
